@@ -447,6 +447,27 @@ def run(chk):
         tot_f, tot_k = float(formed.Mr.BH[-1].sum()), float(kicked_m.Mr.BH[-1].sum())
         if tot_f > 0 and abs(tot_k - kk["BH_ret_dyn"] * tot_f) > 2e-3 * tot_f:
             chk.fail("row: BH mass remaining equals ret_dyn times BH mass formed", case_f, dict(formed=tot_f, remaining=tot_k, ratio=tot_k / tot_f))
+    # the same without kicks, through BOTH constructors and with the two BH retention fractions different from each other: the BH mass
+    # remaining is the REQUESTED dynamical fraction of what the same model forms with full dynamical retention
+    from ssptools.masses import PowerLawIMF as PLI_
+    for r_ in range(4 if chk.tier == "quick" else 16):
+        mbk_, sl_ = [0.1, 0.5, 1.0, 100], [-0.5, -1.3, -2.5]
+        common_ = dict(nbins=[3, 3, int(rng.choice([8, 12]))], FeH=float(rng.choice([-1.0, -2.0, 0.0])), tout=[float(rng.choice([50.0, 3000.0, 12000.0]))], esc_rate=0.0)
+        ri_, rd_ = [(1.0, 0.3), (0.8, 1.0), (0.6, 0.9), (0.9, 0.45)][r_ % 4]
+        via_ = ["from_powerlaw", "primary constructor"][(r_ // 4) % 2] if chk.tier != "quick" else "from_powerlaw"
+        case_c = dict(common_, BH_ret_int=ri_, BH_ret_dyn=rd_, through=via_)
+        with warnings.catch_warnings():
+            warnings.simplefilter("ignore")
+            formed = emf.EvolvedMF(PLI_(mbk_, sl_, N0=5e5), common_["nbins"], common_["FeH"], common_["tout"], 0.0, N0=5e5, BH_ret_int=ri_, BH_ret_dyn=1.0)
+            if via_ == "from_powerlaw":
+                got_ = emf.EvolvedMF.from_powerlaw(mbk_, sl_, N0=5e5, BH_ret_int=ri_, BH_ret_dyn=rd_, **common_)
+            else:
+                got_ = emf.EvolvedMF(PLI_(mbk_, sl_, N0=5e5), common_["nbins"], common_["FeH"], common_["tout"], 0.0, N0=5e5, BH_ret_int=ri_, BH_ret_dyn=rd_)
+        chk.count("complete constructions without kicks, both retention fractions given")
+        chk.note_distinct(case_c)
+        tot_f, tot_g = float(formed.Mr.BH[-1].sum()), float(got_.Mr.BH[-1].sum())
+        if tot_f > 0 and abs(tot_g - rd_ * tot_f) > 1e-9 * tot_f:
+            chk.fail("row: BH mass remaining equals ret_dyn times BH mass formed", case_c, dict(formed=tot_f, remaining=tot_g, ratio=tot_g / tot_f, requested=rd_))
     exprs = []
     for c, rec in zip(pcases, precs):
         kicked = "None"
